@@ -94,7 +94,7 @@ RootKeyRecord(e) ==
 IskCert(e) ==
   /\ st = "Isk" /\ e.at = rkrEnd
   /\ e.iskType \in {1, 2} /\ e.iskLen = (IF e.iskType = 1 THEN 32 ELSE 48)
-  /\ e.userDataLen >= 0 /\ e.sigOff = 12 + 2 * e.iskLen + e.userDataLen
+  /\ e.userDataLen >= 0 /\ e.userDataLen < 65536 /\ e.sigOff = 12 + 2 * e.iskLen + e.userDataLen
   /\ e.hasUserData = (e.userDataLen > 0)
   /\ e.signedFrom = h.certOff + 12 /\ e.signedTo = e.at + e.sigOff
   /\ e.sigLen = rootLen /\ e.ok
@@ -153,14 +153,14 @@ Block(e) ==
 Section(e) ==
   /\ st = "Section" /\ e.uid = 1 /\ e.type = 1
   /\ e.streamLen = CHUNK * h.blockCount
-  /\ 16 + e.len <= e.streamLen /\ e.streamLen - 16 - e.len < CHUNK     \* the section ends in the last block
+  /\ e.len <= e.streamLen - 16 /\ e.streamLen - 16 - e.len < CHUNK     \* the section ends in the last block
   /\ secLen' = e.len /\ cur' = 16 /\ st' = "Cmd"
   /\ UNCHANGED <<inp, h, ts, b0Len, rkrEnd, certEnd, rootLen, signerLen, covTo, blk, ncmd>>
 
 Cmd(e) ==
   /\ st = "Cmd" /\ cur < 16 + secLen
   /\ e.i = ncmd + 1 /\ e.at = cur /\ e.tagOk /\ e.cmd \in 1..14
-  /\ (e.cmd \in DataCmds => e.w2[1] < 4096)
+  /\ (e.cmd \in DataCmds => e.w2[1] \in 0..4095 /\ e.w2[2] \in 0..65535)
   /\ e.hasX = HasX(e.cmd) /\ e.dataLen = DataLenOf(e.cmd, e.w2) /\ e.tail = TailLen(e.cmd)
   /\ e.size = Size(e.cmd, e.dataLen) /\ cur + e.size <= 16 + secLen
   /\ In(/\ e.i <= Len(inp.cmds)                                        \* decodes to the command supplied   (= input)
